@@ -221,6 +221,32 @@ pub fn drive_request<'c>(
     run
 }
 
+/// After `done`: feeds up to `max_calls` further chunks (legal; the bytes simply join the
+/// unread remainder). Returns Err(description) if a call misbehaves.
+pub fn feed_after_done(run: &mut ReqRun, bytes: &[u8], limit: usize, rng: &mut Rng, max_calls: usize) -> Result<usize, String> {
+    let Some(parser) = run.parser.as_mut() else { return Ok(0) };
+    let mut fed_extra = 0;
+    for _ in 0..max_calls {
+        let space = parser.input_buffer().len();
+        let n = space.min(limit - run.fed).min(1 + rng.below(40));
+        if n == 0 {
+            break;
+        }
+        parser.input_buffer()[..n].copy_from_slice(&bytes[run.fed..run.fed + n]);
+        run.fed += n;
+        fed_extra += n;
+        match guarded(|| {
+            let y = parser.parse(n);
+            (y.done, y.output.len())
+        }) {
+            Ok((true, 0)) => {}
+            Ok((d, o)) => return Err(format!("parse({n}) after done returned done={d} with {o} output bytes")),
+            Err(p) => return Err(format!("parse({n}) after done panicked: {p}")),
+        }
+    }
+    Ok(fed_extra)
+}
+
 // ------------------------------------------------------------------------------------------
 // stream parser driver
 
@@ -729,6 +755,14 @@ pub fn run_schedule(d: &mut SDriver, rng: &mut Rng, chunk: &mut Chunking, pol: &
 /// without parsing any further (look-ahead behind a held terminator stays un-interpreted).
 #[allow(clippy::too_many_arguments)]
 pub fn run_schedule_ext(d: &mut SDriver, rng: &mut Rng, chunk: &mut Chunking, pol: &Policy, plans: &[Plan], order: &[u8], model: Option<&StreamModel>, stop_at_none: bool) {
+    run_schedule_full(d, rng, chunk, pol, plans, order, model, stop_at_none, false);
+}
+
+/// `stop_at_last_end`: return when the role's LAST stream reports its end, before selecting
+/// `None` — the caller then converts the parser as it stands (possibly with unconsumed
+/// stream-buffer contents).
+#[allow(clippy::too_many_arguments)]
+pub fn run_schedule_full(d: &mut SDriver, rng: &mut Rng, chunk: &mut Chunking, pol: &Policy, plans: &[Plan], order: &[u8], model: Option<&StreamModel>, stop_at_none: bool, stop_at_last_end: bool) {
     let budget = 8 * d.limit as u64 + 4000;
     let mut steps = 0u64;
     let mut idle = 0u32;
@@ -803,6 +837,9 @@ pub fn run_schedule_ext(d: &mut SDriver, rng: &mut Rng, chunk: &mut Chunking, po
             };
             if advance {
                 let next = order.get(pos + 1).copied();
+                if stop_at_last_end && next.is_none() && st.stream_end {
+                    return;
+                }
                 if d.set_stream(next).is_err() {
                     d.problem("forward-set-stream-rejected", format!("set_stream({next:?}) after stream {s} was rejected"));
                     return;
